@@ -164,4 +164,6 @@ type Metric struct {
 type Query struct {
 	Log    *LogQuery `json:"log,omitempty"`
 	Metric *Metric   `json:"metric,omitempty"`
+	// LogParens is the number of redundant parentheses around a whole log query.
+	LogParens int `json:"log_parens,omitempty"`
 }
